@@ -926,13 +926,69 @@ func unframeReal(frame []byte) (out []byte, ok bool, stage string) {
 	return out, true, ""
 }
 
+func hexUpTo(b []byte, n int) string {
+	if len(b) > n {
+		return short(b)
+	}
+	return verifx.Hex(b)
+}
+
+// weakPayload: random (incompressible) bytes of many lengths, dense around 3–5 KiB where the literal-length bytes of
+// an lz4 sequence add up to about what one short match saves, with
+//   - one repeat of 4–32 earlier bytes placed a few bytes before the end (the tail length is drawn either freely from
+//     0..40 or close to the literal-run overhead len/255), or
+//   - several short repeats scattered through the data.
+func weakPayload(h *verifx.H, r *verifx.Rng) []byte {
+	var body int
+	switch r.Pick(5, 2, 2, 1) {
+	case 0:
+		body = r.Range(2800, 5400)
+	case 1:
+		body = r.Range(64, 2800)
+	case 2:
+		body = r.Range(5400, 20000)
+	case 3:
+		body = r.Range(20000, 65536)
+	}
+	x := r.Bytes(body)
+	rep := func() []byte {
+		m := r.Range(4, 32)
+		if m > len(x) {
+			m = len(x)
+		}
+		var src int
+		if r.Chance(1, 3) {
+			src = r.Intn(min(8, len(x)-m+1)) // from the very beginning (maximal offset)
+		} else {
+			src = r.Intn(len(x) - m + 1)
+		}
+		return append([]byte{}, x[src:src+m]...)
+	}
+	if r.Chance(3, 4) {
+		x = append(x, rep()...)
+		tail := r.Range(0, 40)
+		if r.Bool() {
+			tail = max(0, body/255+r.Range(-6, 8))
+		}
+		x = append(x, r.Bytes(tail)...)
+		h.Stat("frame.weak.one-match-near-end", 1)
+	} else {
+		for k, n := 0, r.Range(2, 6); k < n; k++ {
+			x = append(x, rep()...)
+			x = append(x, r.Bytes(r.Range(0, 600))...)
+		}
+		h.Stat("frame.weak.scattered", 1)
+	}
+	return x
+}
+
 func (c *ctx) frameCase(r *verifx.Rng, big bool, bigIdx int) {
 	h := c.h
 	h.Stat("frame.cases", 1)
 	const maxU = data_model.MaxUncompressedBucketSize
 	// payload
 	var x []byte
-	kind := r.Pick(1, 3, 3, 2, 2, 0, 2)
+	kind := r.Pick(1, 3, 3, 2, 2, 0, 2, 3)
 	if big {
 		kind = 5
 	}
@@ -960,6 +1016,8 @@ func (c *ctx) frameCase(r *verifx.Rng, big bool, bigIdx int) {
 				break search
 			}
 		}
+	case 7: // weakly compressible: incompressible body with one short match near the end / a few scattered matches
+		x = weakPayload(h, r)
 	case 5: // at the size limit (Go only: too long for the list based model driver)
 		size := maxU + []int{0, -1, 1}[bigIdx%3] // exactly at, just below, just above MaxUncompressedBucketSize
 		x = bytes.Repeat([]byte{byte(r.U64()), 7}, size/2+1)[:size]
@@ -996,6 +1054,31 @@ func (c *ctx) frameCase(r *verifx.Rng, big bool, bigIdx int) {
 		}
 	}
 	if big {
+		return
+	}
+	// a batch of weakly compressible payloads (Go oracle only: cheap, many sizes): lz4 gains or loses a few bytes on
+	// them, which is where a frame writer that second-guesses the compressor's buffer needs goes wrong
+	for k := 0; k < 14; k++ {
+		wx := weakPayload(h, r)
+		var wf []byte
+		if err := try(func() error { wf = compress.CompressAndFrame(wx); return nil }); err != nil {
+			h.Viol("frame-compress-panic", "CompressAndFrame panicked on a %d byte weakly compressible payload: %v payload=%s", len(wx), err, hexUpTo(wx, 6000))
+			continue
+		}
+		if out, ok, stage := unframeReal(wf); !ok || !sameBytes(out, wx) {
+			h.Viol("frame-roundtrip", "frame of a %d byte weakly compressible payload does not decompress to the original: ok=%v stage=%s got %d bytes payload=%s", len(wx), ok, stage, len(out), hexUpTo(wx, 6000))
+		}
+		if len(wf) >= 4 && int(binary.LittleEndian.Uint32(wf)) != len(wx) {
+			h.Viol("frame-size-field", "frame header says %d for %d bytes", binary.LittleEndian.Uint32(wf), len(wx))
+		}
+		if len(wf) != 4+len(wx) {
+			h.Stat("frame.weak.compressed", 1)
+		} else {
+			h.Stat("frame.weak.raw", 1)
+		}
+	}
+	if len(x) > 8000 {
+		h.Stat("frame.too-long-for-driver", 1)
 		return
 	}
 	lz := lzCompress(x)
